@@ -47,9 +47,6 @@ func (c *Client) Subscribe(ctx context.Context, params *SubscriptionParameters, 
 
 	stats.Subscription().Add("Count", 1)
 
-	// start the publish loop if it isn't already running
-	c.resumeSubscriptions(ctx)
-
 	sub := &Subscription{
 		SubscriptionID:            res.SubscriptionID,
 		RevisedPublishingInterval: time.Duration(res.RevisedPublishingInterval) * time.Millisecond,
@@ -73,6 +70,12 @@ func (c *Client) Subscribe(ctx context.Context, params *SubscriptionParameters, 
 
 	c.subs[sub.SubscriptionID] = sub
 	c.updatePublishTimeout_NeedsSubMuxLock()
+
+	// start the publish loop if it isn't already running. The signal is
+	// sent after the subscription is registered and while subMux is held so
+	// that it comes after the pause signal of a concurrent
+	// ForgetSubscription which has just removed the last subscription.
+	c.resumeSubscriptions(ctx)
 	return sub, nil
 }
 
@@ -389,6 +392,14 @@ func (c *Client) monitorSubscriptions(ctx context.Context) {
 	dlog := debug.NewPrefixLogger("sub: ")
 	defer dlog.Print("done")
 
+	// resumed is set when a resume signal has been consumed since the last
+	// publish request. The pause and resume signals travel on two channels
+	// and lose their relative order: a pause signal which is read while
+	// resumed is set is older than the resume signal (or redundant) and must
+	// not park the loop. Should pausing have been right after all then the
+	// next publish request fails and pauses the loop.
+	resumed := false
+
 publish:
 	for {
 		select {
@@ -398,9 +409,13 @@ publish:
 
 		case <-c.resumech:
 			dlog.Print("resume")
-			// ignore since not paused
+			resumed = true
 
 		case <-c.pausech:
+			if resumed {
+				dlog.Print("pause: ignored after resume")
+				continue publish
+			}
 			dlog.Print("pause")
 			for {
 				select {
@@ -410,6 +425,7 @@ publish:
 
 				case <-c.resumech:
 					dlog.Print("pause: resume")
+					resumed = true
 					continue publish
 
 				case <-c.pausech:
@@ -419,6 +435,8 @@ publish:
 			}
 
 		default:
+			resumed = false
+
 			// send publish request and handle response
 			//
 			// publish() blocks until a PublishResponse
